@@ -83,6 +83,58 @@ theorem fracOf_ferase (m : FMap) (i j : Nat) :
 theorem fracOf_of_fget {m : FMap} {i v : Nat} (h : fget m i = some v) : fracOf m i = v := by
   simp [fracOf, h]
 
+/-- the keys of the association list are distinct -/
+def KeysNodup (m : FMap) : Prop := (m.map Prod.fst).Nodup
+
+theorem keys_freplace (m : FMap) (i x : Nat) : (freplace m i x).map Prod.fst = m.map Prod.fst := by
+  induction m with
+  | nil => rfl
+  | cons kv m ih =>
+    obtain ⟨k, v⟩ := kv
+    simp only [freplace]
+    split <;> simp [ih]
+
+theorem fget_none_not_mem {m : FMap} {i : Nat} (h : fget m i = none) : i ∉ m.map Prod.fst := by
+  induction m with
+  | nil => simp
+  | cons kv m ih =>
+    obtain ⟨k, v⟩ := kv
+    simp only [fget] at h
+    split at h
+    · cases h
+    · rename_i hk
+      simp only [List.map_cons, List.mem_cons, not_or]
+      exact ⟨fun h' => hk h'.symm, ih h⟩
+
+theorem fset_keys_nodup {m : FMap} (h : KeysNodup m) (i x : Nat) : KeysNodup (fset m i x) := by
+  unfold fset KeysNodup
+  split
+  · rw [keys_freplace]; exact h
+  · rename_i hs
+    have hn : fget m i = none := by
+      cases hg : fget m i with
+      | none => rfl
+      | some v => simp [hg] at hs
+    simp only [List.map_cons]
+    exact List.nodup_cons.mpr ⟨fget_none_not_mem hn, h⟩
+
+/-- with distinct keys every entry of the list is what `fget` finds -/
+theorem fget_of_mem {m : FMap} (h : KeysNodup m) {kv : Nat × Nat} (hm : kv ∈ m) : fget m kv.1 = some kv.2 := by
+  induction m with
+  | nil => cases hm
+  | cons x m ih =>
+    obtain ⟨k, v⟩ := x
+    obtain ⟨hk, hnd⟩ := List.nodup_cons.mp h
+    rcases List.mem_cons.mp hm with rfl | hm'
+    · simp [fget]
+    · have hne : k ≠ kv.1 := by
+        intro heq
+        apply hk
+        rw [heq]
+        exact List.mem_map.mpr ⟨kv, hm', rfl⟩
+      simp only [fget, hne, if_false]
+      exact ih hnd hm'
+
 /-- what `bestVal` returns is a value of the map that is `≥ fr` -/
 theorem bestVal_some {m : FMap} {fr b : Nat} (h : bestVal m fr = some b) : fr ≤ b := by
   induction m generalizing b with
@@ -107,7 +159,14 @@ theorem bestMatch_some {m : FMap} {fr : Nat} {pick : Option Nat} {p b : Nat}
   · simp at h
   · rename_i b' hb'
     split at h
-    · simp at h
+    · split at h
+      · split at h
+        · rename_i hget
+          simp only [Except.ok.injEq, Option.some.injEq, Prod.mk.injEq] at h
+          obtain ⟨rfl, rfl⟩ := h
+          exact ⟨hget, bestVal_some hb'⟩
+        · simp at h
+      · simp at h
     · rename_i p'
       split at h
       · rename_i hget
